@@ -100,3 +100,22 @@ def det(R, A):
         return tot
 
     return rec(0, tuple(range(n)))
+
+
+def unit_quaternion_hyps(enc, tr):
+    """|q|^2 = 1 for every quaternion of the state (valid states only); constant-true ones are dropped"""
+    from engine.driver import poly as P
+    from engine.driver.encode import Constraint
+    hyps = []
+    for st in (tr.note("quat_starts", "") or "").split():
+        st = int(st)
+        s = {}
+        for i in range(4):
+            q = enc.poly(tr.input_by_name["q%d" % (st + i)][2])
+            s = P.add(s, enc.ring.mul(q, q))
+        c = Constraint(1, P.sub(s, P.const(1)), "|quat@q%d|^2=1" % st)
+        if c.const_truth() is None:
+            hyps.append(c)
+        elif not c.const_truth():
+            raise RuntimeError("pinned quaternion is not unit")
+    return hyps
